@@ -71,7 +71,7 @@ func pmPods(base int32) map[string][]k8s.Port {
 		"x":  {{HostPort: base + 1, ContainerPort: 80, Protocol: "TCP", PodName: "x", PodIP: "10.0.0.2"}},
 		"x2": {{HostPort: base + 1, ContainerPort: 80, Protocol: "TCP", PodName: "x", PodIP: "10.0.0.9"}}, // x re-created with a new IP: same chain name, other content
 		"y":  {{HostPort: base + 2, ContainerPort: 8080, Protocol: "UDP", PodName: "y", PodIP: "10.0.0.3", HostIP: "10.1.1.1"}, {HostPort: base + 3, ContainerPort: 80, Protocol: "TCP", PodName: "y", PodIP: "10.0.0.3"}},
-		"z":  {{HostPort: base + 1, ContainerPort: 8080, Protocol: "UDP", PodName: "z", PodIP: "10.0.0.4"}}, // same host port number as x, other protocol
+		"z":  {{HostPort: base + 1, ContainerPort: 8080, Protocol: "UDP", PodName: "z", PodIP: "10.0.0.4"}},                  // same host port number as x, other protocol
 		"v":  {{HostPort: base + 4, ContainerPort: 80, Protocol: "TCP", PodName: "v", PodIP: "10.0.0.5", HostIP: "0.0.0.0"}}, // the wildcard address as host IP
 	}
 }
